@@ -24,8 +24,8 @@ def parseHV? (s : String) : Option HV :=
     (if s.length = 1 then some (.str []) else (parseHex? (s.drop 1).toString).map .str)
   else none
 
-def parseOptNat? (s : String) : Option (Option Nat) :=
-  if s = "-" then some none else s.toNat?.map some
+def parseOptInt? (s : String) : Option (Option Int) :=
+  if s = "-" then some none else s.toInt?.map some
 
 /-- `x<id>:x<key>` -/
 def parsePair? (s : String) : Option (Str × Key) :=
@@ -82,9 +82,9 @@ def parseToken? : List String → Option Token
     let sig ← parseXL? sig
     let iss ← parseX? iss
     let user ← parseX? user
-    let exp ← parseOptNat? exp
-    let iat ← parseOptNat? iat
-    let nbf ← parseOptNat? nbf
+    let exp ← parseOptInt? exp
+    let iat ← parseOptInt? iat
+    let nbf ← parseOptInt? nbf
     let svc ← parseBool? svc
     let bits ← parseXL? bits
     pure { alg, kind, kid, sigValid := sig, iss, user, exp, iat, nbf, service := svc, bits }
@@ -117,7 +117,7 @@ def parseMeta? : List String → Option Meta
            fixedKey2Ts := ts, rawTags := raws }
   | _ => none
 
-def doParse (st : St) (now : Nat) (inp : Input) : St × List String :=
+def doParse (st : St) (now : Int) (inp : Input) : St × List String :=
   let r := parseAccessToken st.cfg now inp
   let ai := match r with
     | .ok a => some a
@@ -135,13 +135,13 @@ def step (st : St) (toks : List String) : St × List String :=
       let dump := (table.map (fun e => showX e.1 ++ ":" ++ showX e.2)).toArray.qsort (· < ·) |>.toList
       ({ cfg := { app, keys := table, prot, localMode := lm, insecure := ins }, ai := none }, ["keys " ++ showList dump])
     | _, _, _, _, _, _ => (st, ["bad-op"])
-  | ["tok", now, "empty"] => match now.toNat? with
+  | ["tok", now, "empty"] => match now.toInt? with
     | some now => doParse st now .empty
     | none => (st, ["bad-op"])
-  | ["tok", now, "malformed"] => match now.toNat? with
+  | ["tok", now, "malformed"] => match now.toInt? with
     | some now => doParse st now .malformed
     | none => (st, ["bad-op"])
-  | "tok" :: now :: "t" :: rest => match now.toNat?, parseToken? rest with
+  | "tok" :: now :: "t" :: rest => match now.toInt?, parseToken? rest with
     | some now, some t => doParse st now (.tok t)
     | _, _ => (st, ["bad-op"])
   | ["view", name] => match st.ai, parseX? name with
